@@ -65,6 +65,7 @@ func c08startNode(suite suites.Suite, kp *key.Pair) (*c08node, error) {
 		if !ok {
 			return nil
 		}
+		c08phaseNotify(m.Tok, "m", env)
 		if ch, ok := c08waiters.Load(m.Tok); ok {
 			var p kyber.Point
 			if env.ServerIdentity != nil {
@@ -77,6 +78,7 @@ func c08startNode(suite suites.Suite, kp *key.Pair) (*c08node, error) {
 		}
 		return nil
 	})
+	c08phaseProcessors(r)
 	go r.Start()
 	for i := 0; i < 500 && !r.Listening(); i++ {
 		time.Sleep(2 * time.Millisecond)
@@ -226,7 +228,7 @@ func c08oracle(d c08desc) (claimed string, why string, own bool) {
 func c08exec(c *h.Ctx, cs *h.Case) {
 	outcome := []string{}
 	for _, op := range cs.Ops {
-		if tk := strings.Fields(op); len(tk) > 2 && tk[0] == "c08" && (tk[1] == "honestcert" || tk[1] == "pair" || tk[1] == "retry" || tk[1] == "vrf" || tk[1] == "hv") {
+		if tk := strings.Fields(op); len(tk) > 2 && tk[0] == "c08" && (tk[1] == "honestcert" || tk[1] == "pair" || tk[1] == "retry" || tk[1] == "vrf" || tk[1] == "hv" || tk[1] == "phase") {
 			var obs, note string
 			switch tk[1] {
 			case "honestcert":
@@ -237,6 +239,8 @@ func c08exec(c *h.Ctx, cs *h.Case) {
 				obs, note = c08vrf(tk[2:], cs)
 			case "hv":
 				obs, note = c08hv(tk[2:], cs)
+			case "phase":
+				obs, note = c08phase(tk[2:], cs)
 			default:
 				obs, note = c08pair(tk[2:], cs)
 			}
@@ -745,6 +749,47 @@ func c08gen(c *h.Ctx, yield func(*h.Case)) {
 			vemit("vrf-combo", d)
 		}
 	}
+	// the message phase (round 5): after an honest set-up, sequences of messages, ServerIdentity messages
+	// naming other keys (with the id field of the proven key or of another one) and refused frames
+	{
+		seqs := []string{"m;i:v/a;m", "i:v/a;m;m", "m;i:v/v;m", "i:h/a;m", "m;x;i:o/a;x;m", "i:a/a;m", "i:v/a;i:a/a;m", "i:v/a;i:o/a;i:h/h;m;m", "m;m;m", "x;m"}
+		keys := []string{"h", "v", "a", "o"}
+		for i := 0; i < c.Pick(10, 200); i++ {
+			var it []string
+			for k := 1 + r.Intn(8); k > 0; k-- {
+				switch r.Intn(5) {
+				case 0:
+					it = append(it, "x")
+				case 1, 2:
+					it = append(it, "i:"+keys[r.Intn(4)]+"/"+keys[r.Intn(4)])
+				default:
+					it = append(it, "m")
+				}
+			}
+			seqs = append(seqs, strings.Join(append(it, "m"), ";"))
+		}
+		for _, suite := range suitesL {
+			for _, role := range []string{"accept", "dial"} {
+				for _, tlsv := range []string{"12", "13"} {
+					if !c.Thorough() && suite != "ed" && tlsv == "12" {
+						continue
+					}
+					for si, sq := range seqs {
+						if !c.Thorough() && suite != "ed" && si >= 5 {
+							break
+						}
+						if c.TooManyFails() {
+							break
+						}
+						c.Count("class=phase")
+						c.Count("phase-role=" + role)
+						c.Count(fmt.Sprintf("phase-identity-messages=%d", strings.Count(sq, "i:")))
+						yield(&h.Case{Class: "phase:" + role, Ops: []string{fmt.Sprintf("c08 phase role=%s suite=%s tlsv=%s seq=%s", role, suite, tlsv, sq)}})
+					}
+				}
+			}
+		}
+	}
 	// fault sequences of the dialling role: the first attempts answered one way, the later ones another
 	kinds := []string{"abort", "badproof", "otherkey", "expired", "honest"}
 	for _, suite := range suitesL {
@@ -850,6 +895,7 @@ func c08gen(c *h.Ctx, yield func(*h.Case)) {
 		strings.Replace(honest("accept", "ed", "12", "v").line(), "sig=v/cur/new:v", "sig=v/now/new:v", 1),
 		strings.Replace(honest("dial", "ed", "12", "v").line(), "them=v", "them=-", 1),
 		honest("dial", "ed", "12", "v").line() + " extra=1",
+		"c08 phase role=accept suite=ed tlsv=13 seq=", "c08 phase role=accept suite=ed tlsv=13 seq=m;i:v", "c08 phase role=both suite=ed tlsv=13 seq=m",
 		"c08 vrf role=dial", "c08 hv role=dial suite=ed them=- nonce=cur", "c08 hv role=accept suite=ed them=v nonce=cur",
 		strings.Replace(c08vrfLine(honest("dial", "ed", "13", "v")), "suite=ed", "suite=p384", 1),
 		strings.Replace(c08vrfLine(honest("accept", "g1", "13", "v")), "them=-", "them=v", 1),
